@@ -92,7 +92,10 @@ public:
 			}
 			// adjust the shift
 			shift -= static_cast<int>(blockShift * bitsInBlock);
-			if (shift == 0) return *this;
+			if (shift == 0) {
+				remove_leading_zeros(); // drop the limb that was added up front
+				return *this;
+			}
 		}
 		if (MSU > 0) {
 			// construct the mask for the upper bits in the block that needs to move to the higher word
